@@ -13,6 +13,7 @@ covered by exploration only (harness/corr/C16.py).
 -/
 import Emboss.Lemmas.PipelineQueue
 import Emboss.Lemmas.PipelineFormat
+import Emboss.Lemmas.PipelineDriver
 namespace Emboss.Pipeline
 
 /-- **Result is IR xor a non-empty list of (non-empty) groups.**  Whatever the passes and
@@ -233,14 +234,73 @@ example :
      | .done fs => fs == ["a", "", "b", "c"]
      | _ => false) = true := by decide
 
-/-- **Caret line (as far as it goes).**  For a location inside the shown line the indicator
-is `column − 1` blanks followed by `max 1 (end − start)` carets, and it does not extend past
-the position just after the last character of that line (not past the last character when
-the span is non-empty).
-PARTIAL: the full statement would say that every location the *real* passes produce lies
-inside its line (`InLine`); that is checked by the exploration oracle on real runs, not
-proved, because the passes are not modelled.  Multi-line spans get a single caret. -/
-theorem C16_caret_in_line_partial (l : Loc) (line : Text) (h : InLine l line) :
+/-- **Every location the tokenizer and `merge_source_locations` can produce lies inside the
+file.**  `Produced lines` = a token inside a line, the end-of-file `Dedent`, or a merge of
+produced locations (`start` of the first, `end` of the last), possibly marked synthetic; the
+real `merge_source_locations` only ever returns such a location (or raises the constructor's
+`assert start <= end`, or returns `None`). -/
+theorem C16_locations_in_file (lines : List Text) :
+    (∀ l, Produced lines l → InFile l lines) ∧
+    (∀ ls l, (∀ x ∈ ls, x.sl ≠ 0 → Produced lines x) → mergeLocs ls = .ok (some l) →
+      Produced lines l) :=
+  ⟨produced_inFile lines, mergeLocs_produced lines⟩
+
+/-- Non-vacuity: the location of `$next [+1]` (tokens `$next` … `]` of line 2) is produced,
+and `merge_source_locations` of its tokens yields it. -/
+example : mergeLocs [tokLoc 2 2 5, ⟨0, 0, 0, 0, false⟩, tokLoc 2 8 1, tokLoc 2 11 1] =
+    .ok (some ⟨2, 3, 2, 13, false⟩) := by rfl
+
+/-- **Caret line (full).**  For every produced location whose first line is shown, the
+indicator is `column − 1` blanks followed by one caret per located character (at least one;
+exactly one when the span continues on a later line), and it never extends past the
+position just after the last character of the shown line (not past the last character when
+the span is a non-empty part of that line).  No `InLine` hypothesis: it follows from how
+locations are produced.  What remains outside Lean: that every location on a real message
+is `Produced` — tokens are tied by the `TOKLOC` op, `merge_source_locations` by `MERGE`,
+and the exploration oracle checks `InFile` on every real message. -/
+theorem C16_caret_in_line (lines : List Text) (l : Loc) (line : Text) (h : Produced lines l)
+    (hl : lines[l.sl - 1]? = some line) :
+    indicator l = List.replicate (l.sc - 1) ' ' ++
+      List.replicate (if l.sl = l.el then max 1 (l.ec - l.sc) else 1) '^' ∧
+    (indicator l).length ≤ line.length + 1 ∧
+    (l.sl = l.el → l.sc < l.ec → (indicator l).length ≤ line.length) := by
+  obtain ⟨hs, he, hle⟩ := produced_inFile lines l h
+  have hsc : 1 ≤ l.sc ∧ l.sc ≤ line.length + 1 := by
+    rcases hs with ⟨line', _, h2, h3, h4⟩ | ⟨h1, _⟩
+    · rw [hl] at h2; cases h2; exact ⟨h3, h4⟩
+    · rw [h1] at hl; simp at hl
+  have hind : indicator l = List.replicate (l.sc - 1) ' ' ++
+      List.replicate (if l.sl = l.el then max 1 (l.ec - l.sc) else 1) '^' := by
+    unfold indicator caret
+    split <;> simp_all
+  refine ⟨hind, ?_, ?_⟩
+  · rw [hind]
+    simp only [List.length_append, List.length_replicate]
+    split
+    · rename_i heq
+      have hec : l.ec ≤ line.length + 1 := by
+        rcases he with ⟨line', _, h2, _, h4⟩ | ⟨h1, _⟩
+        · rw [← heq, hl] at h2; cases h2; exact h4
+        · rw [← heq] at h1; rw [h1] at hl; simp at hl
+      omega
+    · omega
+  · intro heq hlt
+    rw [hind]
+    simp only [List.length_append, List.length_replicate, heq, if_true]
+    have hec : l.ec ≤ line.length + 1 := by
+      rcases he with ⟨line', _, h2, _, h4⟩ | ⟨h1, _⟩
+      · rw [← heq, hl] at h2; cases h2; exact h4
+      · rw [← heq] at h1; rw [h1] at hl; simp at hl
+    omega
+
+/-- Non-vacuity: `$next` at columns 3–8 of the second line (a token), and a multi-line
+merge starting there. -/
+example : Produced ["struct Foo:".toList, "  $next [+1]  UInt  x".toList] (tokLoc 2 2 5) :=
+  Produced.tok 2 2 5 _ (by decide) rfl (by decide)
+
+/-- The single-line special case that was the round-1 theorem (kept as a corollary-style
+statement about `InLine` locations). -/
+theorem C16_caret_in_line_inline (l : Loc) (line : Text) (h : InLine l line) :
     indicator l = List.replicate (l.sc - 1) ' ' ++ List.replicate (max 1 (l.ec - l.sc)) '^' ∧
     (indicator l).length ≤ line.length + 1 ∧
     (l.sc < l.ec → (indicator l).length ≤ line.length) := by
@@ -251,6 +311,189 @@ theorem C16_caret_in_line_partial (l : Loc) (line : Text) (h : InLine l line) :
 
 example : InLine ⟨2, 3, 2, 7, false⟩ "  0 [+1] UInt x".toList := by
   simp [InLine]
+
+/-- **`_find_in_dirs_and_read` never raises on file-system faults.**  When opening the file
+fails in a directory with an `OSError` (missing, directory, path through a file, name too
+long, permission, symlink loop …) or a `UnicodeError`, the search goes on; the result is the
+text of the first directory where the file can be read (every earlier directory failed), or
+`(None, errors)` with one detail per directory plus the import path — a non-empty list, so
+`glue.parse_module` takes its "Unable to read file." branch. -/
+theorem C16_find_and_read_total (probes : List (Text × Probe))
+    (h : ∀ p ∈ probes, ∀ n, p.2 ≠ .otherError n) :
+    (∃ t pre d post, findAndRead probes = .found t ∧ probes = pre ++ (d, .text t) :: post ∧
+        ∀ q ∈ pre, q.2.isText = false) ∨
+    (∃ es, findAndRead probes = .notFound es ∧ es.length = probes.length + 1 ∧
+        (∀ q ∈ probes, q.2.isText = false) ∧
+        ∃ g, parseModuleRead "f" (.notFound es) = some (.ok g) ∧ g.length = probes.length + 2) := by
+  rcases findLoop_spec (probes.map (·.1)) probes [] h with h1 | ⟨es, h1, h2, h3⟩
+  · exact Or.inl h1
+  · refine Or.inr ⟨es, h1, by simpa using h2, h3, ?_⟩
+    have hne : es.isEmpty = false := by
+      cases es with
+      | nil => simp at h2
+      | cons a t => rfl
+    refine ⟨unreadableGroup "f" es, by simp [parseModuleRead, hne], ?_⟩
+    simp only [unreadableGroup, List.length_cons, List.length_map]
+    simp at h2
+    omega
+
+/-- Non-vacuity: a directory in the first import dir, undecodable bytes in the second, the
+file in the third. -/
+example : findAndRead [("a".toList, .osError "Is a directory".toList),
+      ("b".toList, .unicodeError "invalid start byte".toList), ("c".toList, .text ['x'])] =
+    .found ['x'] := by decide
+
+/-- The seeded narrowing `except FileNotFoundError` is the situation `otherError`: with a
+class of failure that is not caught the call raises. -/
+example : findAndRead [("a".toList, .otherError "IsADirectoryError"), ("c".toList, .text ['x'])] =
+    .raised "IsADirectoryError" := by decide
+
+/-- **An unreadable file is one well-formed group**: the error "Unable to read file."
+followed by one note per detail, all at `1:1` of the named file, none synthetic — and it
+renders. -/
+theorem C16_unreadable_file_group (file : String) (details : List Text) :
+    unreadableGroup file details ≠ [] ∧
+    (∀ m ∈ unreadableGroup file details, m.file = file ∧ m.loc = ⟨1, 1, 1, 1, false⟩) ∧
+    (unreadableGroup file details).head?.map (·.sev) = some .error ∧
+    ∀ sources color, ∃ t, formatErrors [unreadableGroup file details] sources color = .ok t := by
+  refine ⟨by simp [unreadableGroup], ?_, by simp [unreadableGroup], ?_⟩
+  · intro m hm
+    simp only [unreadableGroup, List.mem_cons, List.mem_map] at hm
+    rcases hm with rfl | ⟨d, _, rfl⟩ <;> exact ⟨rfl, rfl⟩
+  · intro sources color
+    exact (C16_format_errors_total _ sources color).1 (by
+      intro g hg
+      simp only [List.mem_singleton] at hg
+      subst hg
+      simp [unreadableGroup])
+
+/-- **`embossc` exits 0 or 1, never with a traceback** — provided the front end returned an
+IR or well-formed errors, the back end's groups are non-empty, and the output location is
+writable.  Exit 1 happens exactly when the front end or the back end reported errors, and
+then stderr is those errors rendered (front-end errors without source snippets: the IR is
+`None`); exit 0 exactly when both succeeded, and then the header is written to
+`join(output_path, output_file or input + ".h")`. -/
+theorem C16_embossc_exit {σ : Type} (front : FrontResult σ) (back : σ → Text × Errors)
+    (color : Bool) (op ofile : Option Text) (input : Text) (fs : OutFs)
+    (hfront : ∀ es, front = .errors es → WellFormed es)
+    (hback : ∀ s src, front = .ir s src → ∀ g ∈ (back s).2, g ≠ [])
+    (hdir : dirname (embosscOutput op ofile input) ≠ [])
+    (hmk : fs.makedirs (dirname (embosscOutput op ofile input)) = true)
+    (hwr : fs.openWrite (embosscOutput op ofile input) = true) :
+    (∃ es t, front = .errors es ∧ showErrors es [] color = .ok t ∧
+        embosscMain front back color op ofile input fs = .exit 1 t none) ∨
+    (∃ s src t, front = .ir s src ∧ (back s).2 ≠ [] ∧ showErrors (back s).2 src color = .ok t ∧
+        embosscMain front back color op ofile input fs = .exit 1 t none) ∨
+    (∃ s src, front = .ir s src ∧ (back s).2 = [] ∧
+        embosscMain front back color op ofile input fs =
+          .exit 0 [] (some (embosscOutput op ofile input, (back s).1))) := by
+  cases front with
+  | errors es =>
+    obtain ⟨hne, hg⟩ := hfront es rfl
+    obtain ⟨t, ht⟩ := showErrors_ok es [] color hg
+    have hemp : es.isEmpty = false := by
+      cases es with
+      | nil => exact absurd rfl hne
+      | cons a b => rfl
+    exact Or.inl ⟨es, t, rfl, ht, by simp [embosscMain, hemp, ht]⟩
+  | ir s src =>
+    by_cases hb : (back s).2 = []
+    · refine Or.inr (Or.inr ⟨s, src, rfl, hb, ?_⟩)
+      have hd : (dirname (embosscOutput op ofile input)).isEmpty = false := by
+        cases hdd : dirname (embosscOutput op ofile input) with
+        | nil => exact absurd hdd hdir
+        | cons a b => rfl
+      simp [embosscMain, hb, hd, hmk, hwr]
+    · obtain ⟨t, ht⟩ := showErrors_ok (back s).2 src color (hback s src rfl)
+      have hemp : (back s).2.isEmpty = false := by
+        cases hbb : (back s).2 with
+        | nil => exact absurd hbb hb
+        | cons a b => rfl
+      exact Or.inr (Or.inl ⟨s, src, t, rfl, hb, ht, by simp [embosscMain, hemp, ht]⟩)
+
+/-- Non-vacuity, and the two command-line quirks: the default output lands in
+`./<input>.h`; an empty `--output-path` with a bare file name makes `os.makedirs("")` raise. -/
+example :
+    embosscMain (σ := Unit) (.ir () []) (fun _ => ("H".toList, [])) false none none "m.emb".toList
+      ⟨fun _ => true, fun _ => true⟩ = .exit 0 [] (some ("./m.emb.h".toList, "H".toList)) ∧
+    embosscMain (σ := Unit) (.ir () []) (fun _ => ("H".toList, [])) false (some []) none "m.emb".toList
+      ⟨fun _ => true, fun _ => true⟩ = .raised "FileNotFoundError" := by decide
+
+/-- **End to end: `embossc` on the modelled pipeline.**  For any per-file parser and passes
+that never return an empty group, any finite import graph (fuel beyond the number of reachable
+files), `stop_before_step = None` (the executables never set it), a back end that never returns
+an empty group and a writable output location: the run is `exit 0` with the header written, or
+`exit 1` with the rendered errors on stderr — never a traceback, never out of fuel.  The passes,
+the per-file parser and the back end are abstract: this is the plumbing half of the property;
+that they do not raise themselves is the exploration's half. -/
+theorem C16_embossc_end_to_end {σ : Type} (parse : String → Parsed) (mk : List String → σ)
+    (passes : List (Pass σ)) (root : String) (U : List String)
+    (hU : ∀ f, Reach parse root f → f ∈ U) (fuel : Nat) (hfuel : U.length < fuel)
+    (hparse : ∀ f, ∀ g ∈ (parse f).errors, g ≠ [])
+    (hpass : ∀ p ∈ passes, ∀ s, ∀ g ∈ (p.run s).2, g ≠ [])
+    (sources : σ → List (String × Text)) (back : σ → Text × Errors)
+    (hback : ∀ s, ∀ g ∈ (back s).2, g ≠ [])
+    (color : Bool) (op ofile : Option Text) (input : Text) (fs : OutFs)
+    (hdir : dirname (embosscOutput op ofile input) ≠ [])
+    (hmk : fs.makedirs (dirname (embosscOutput op ofile input)) = true)
+    (hwr : fs.openWrite (embosscOutput op ofile input) = true) :
+    ∃ front, frontOf (parseEmbossFile parse mk passes none fuel root) sources = .ok front ∧
+      ((∃ t, embosscMain front back color op ofile input fs = .exit 1 t none) ∨
+       (∃ h, embosscMain front back color op ofile input fs =
+          .exit 0 [] (some (embosscOutput op ofile input, h)))) := by
+  cases hout : parseEmbossFile parse mk passes none fuel root with
+  | outOfFuel =>
+    exfalso
+    unfold parseEmbossFile at hout
+    split at hout
+    · rename_i hq
+      exact (C16_import_queue_terminates parse root U hU fuel hfuel).1 hq
+    · cases hout
+    · rename_i files _
+      simp only [processIr] at hout
+      exact processLoop_no_fuel none passes (mk files) [] hout
+  | crash c =>
+    exfalso
+    unfold parseEmbossFile at hout
+    split at hout
+    · cases hout
+    · cases hout
+    · rename_i files _
+      obtain ⟨_, n, hn, _⟩ := C16_process_ir_asserts passes none (mk files) c hout
+      cases hn
+  | ir s =>
+    refine ⟨.ir s (sources s), rfl, ?_⟩
+    rcases C16_embossc_exit (.ir s (sources s)) back color op ofile input fs
+        (by intro es h; cases h) (by intro s' src h; cases h; exact hback _) hdir hmk hwr with
+      ⟨es, t, h, _⟩ | ⟨s', src, t, _, _, _, h⟩ | ⟨s', src, _, _, h⟩
+    · cases h
+    · exact Or.inl ⟨t, h⟩
+    · exact Or.inr ⟨_, h⟩
+  | errors es =>
+    refine ⟨.errors es, rfl, ?_⟩
+    have hwf := (C16_errors_nonempty parse mk passes none fuel root es hout).2 hparse hpass
+    rcases C16_embossc_exit (σ := σ) (.errors es) back color op ofile input fs
+        (by intro es' h; cases h; exact hwf) (by intro s' src h; cases h) hdir hmk hwr with
+      ⟨es', t, _, _, h⟩ | ⟨s', src, t, h, _⟩ | ⟨s', src, h, _⟩
+    · exact Or.inl ⟨t, h⟩
+    · cases h
+    · cases h
+
+/-- Non-vacuity: a two-file project whose import is unreadable ends in exit 1 with the
+"Unable to read file." group on stderr. -/
+example :
+    let parse : String → Parsed := fun f =>
+      if f = "top.emb" then ⟨[], ["", "dep.emb"]⟩
+      else if f = "" then ⟨[], []⟩ else ⟨[unreadableGroup f ["import path .".toList]], []⟩
+    (match frontOf (parseEmbossFile parse (fun _ => ()) ([] : List (Pass Unit)) none 9 "top.emb")
+        (fun _ => []) with
+     | .ok front =>
+       (match embosscMain front (fun _ => ([], [])) false none none "top.emb".toList
+          ⟨fun _ => true, fun _ => true⟩ with
+        | .exit 1 t none => t.take 35 == "dep.emb:1:1: error: Unable to read ".toList
+        | _ => false)
+     | .error _ => false) = true := by decide
+
 
 /-- `make_error_from_parse_error` returns exactly one group of exactly one message, located
 at the token (or at the default location when the token has none — the empty-input case),
